@@ -4,7 +4,7 @@
   b42d7ed (PCM header outside pcmd), 80e619f (pointer slot outside the sequence), 27af62a
   (pitch clamp before narrowing), c8da697 (identifier beginning with a digit), the repair of
   D11 (add_song re-homes the playback window `pcmd[position + start, +size)` of a PCM header and
-  passes `start = 0`; same commit as the Wave_Bank repair, see Model/Wave.lean), and 8769e2a (sample
+  passes `start = 0`; same commit as the Wave_Bank repair, see Model/Wave.lean), and 8d72d11 (sample
   index of add_sample kept in an unsigned int).
 
   One definition per C++ function: `addSong` (chunk walk over Model/Riff, `checkVersion`, patch
@@ -23,7 +23,7 @@
     * `uint32_t addr = seq_sdata + id * 2` is `u32 (sdata + u32 (id * 2))`; it is stored in a
       `uint16_t` pair member: `% 65536`;
     * `uint16_t offset = add_unique_data(..)`: `% 65536` (the result of `wave_rom.add_sample(..)` is an
-      `unsigned int` since fix 8769e2a and indexes the headers as it is);
+      `unsigned int` since fix 8d72d11 and indexes the headers as it is);
     * `data_offset[j.second & 0x7fff] | (j.second & 0x8000)` written by `write_be16`: low 16 bits;
     * `write_be16(data, 6, id - 1)`, the `uint16_t value` of `asm_define`/`c_define`: `% 65536`;
     * `write_be32` of offsets and `(position + start) | (cp << 24)`: `% 2^32` inside `be32`.
